@@ -129,7 +129,9 @@ def run_variant(v, tier='quick'):
         known = {(k['rule'], k['construct']) for k in load_known() if k.get('property') == p}
         new = [i for i in rep.violations() if (i.rule, i.construct) not in known]
         if v.kind == 'breaker':
-            if rep.exit_code == 2 and not new:
+            if rep.exit_code == 2 and not new and getattr(v, 'accept_exit2', False):
+                outs.append(('ok', '%s refuses the tree (exit 2: %s)' % (p, '; '.join(rep.lines)[:120])))
+            elif rep.exit_code == 2 and not new:
                 outs.append(('UNDECIDED', '%s: %s' % (p, '; '.join(rep.lines)[:300])))
             elif not new:
                 outs.append(('MISSED', '%s stayed silent' % p))
@@ -191,7 +193,7 @@ def main():
         results = [_one(j) for j in jobs]
     bad = 0
     for name, kind, props, st, d in results:
-        if st != 'ok':
+        if st not in ('ok', 'SKIPPED'):
             bad += 1
         print('%-11s %-7s %-8s %-45s %s' % (st, kind, '/'.join(props) if len(props) < 4 else '%d props' % len(props), name, d[:400]))
     print('%d variants not ok' % bad)
